@@ -330,6 +330,9 @@ func (a *Analysis) Decls(fn *Func) []Decl {
 		if _, isLabel := obj.(*types.Label); isLabel {
 			return true
 		}
+		if v, isVar := obj.(*types.Var); isVar && v.IsField() {
+			return true
+		}
 		out = append(out, Decl{Name: id.Name, Line: a.Fset.Position(id.Pos()).Line, Scope: obj.Parent(), Kind: fmt.Sprintf("%T", obj)})
 		return true
 	})
